@@ -151,26 +151,11 @@ def run_case(case, obs) -> None:  # noqa: C901, PLR0912, PLR0915
         except IntegratorError as e:
             obs.count("round_trips_failed_loudly")
             obs.count(f"failed_loudly.leg{leg}")
-            if leg == 2 and case["n"] == 1 and not explicit:
-                # the outward step returned a state, i.e. vouched for its own reversal, yet the reversed step from exactly
-                # that state raises. The reversed step repeats the solves of the outward step's reversibility checks, so
-                # this can only be an iteration-limit borderline -- decided by repeating it with a 20x iteration budget
-                kw = dict(ispec.get("solver_kwargs", {}))
-                kw["max_iters"] = 20 * kw.get("max_iters", 100)
-                generous = zoo.make_integrator(m, dict(ispec, solver_kwargs=kw))
-                obs.count("back_leg_retries")
-                try:
-                    back = generous.step(mid_state)
-                    off = float(np.max(np.abs(np.concatenate([back.pos, back.mom]) - z0)))
-                except IntegratorError:
-                    off = np.inf
-                if off <= 1e-6 * (1 + maxnorm[0]):
-                    obs.inconc("back-leg-iteration-limit-borderline")
-                else:
-                    obs.violation(f"returned-step-not-undone:{iname}:{sname}{label}",
-                                  f"one step succeeded but the reversed step from its result raises {type(e).__name__} ({e}) and "
-                                  f"{'raises again' if off == np.inf else 'lands %.3e away from the start' % off} with a 20x iteration budget"
-                                  f"{label}; eps={eps:.4g} frac={case['frac']:.3g} sys={spec} int={ispec}")
+            if leg == 2:
+                # the reversed step is itself a step that may fail loudly: its own reversibility check re-solves the
+                # outward step's implicit equations from a different initial guess and can refuse although the outward
+                # step succeeded.  "Reversible or fails loudly" is satisfied; only counted.
+                obs.count("back_leg_failed_loudly_after_outward_success")
             return
         obs.count("round_trips_completed")
         if maxnorm[0] > 50 * (1 + np.max(np.abs(z0))):
